@@ -152,7 +152,8 @@ pub enum Op {
     /// config_mut(): set switch `bit` to `on`
     Flip { bit: u8, on: bool },
     /// read `n` raw bytes through Reader::stream(): via 0 = Read::read_exact /
-    /// AsyncReadExt::read_exact, 1 = fill_buf + consume loops, 2 = single read() calls
+    /// AsyncReadExt::read_exact, 1 = fill_buf + consume loops, 2 = single read() calls,
+    /// 3 = read_to_end into a non-empty Vec (reads the rest of the input), 4 = read_until(b'>') into a non-empty Vec
     Raw { n: u16, via: u8 },
 }
 
@@ -353,6 +354,10 @@ pub struct PipePlan {
     pub werr_at: Option<u32>,
     /// indentation (char, size) for both writers
     pub indent: Option<(u8, u8)>,
+    /// the async sink announces and implements vectored writes natively (like a socket):
+    /// one call may accept bytes of several slices and stop inside a later one
+    #[serde(default)]
+    pub vectored: bool,
 }
 
 #[derive(Serialize, Deserialize, Clone, Debug, PartialEq, Eq, Hash)]
@@ -377,6 +382,10 @@ pub struct Plan {
     /// de scenario: which type of the family is the target
     #[serde(default)]
     pub type_id: u32,
+    /// run this plan in a child process (a stack overflow or any other abort of the library
+    /// cannot be caught in-process; the parent turns the child's death into a violation)
+    #[serde(default)]
+    pub isolate: bool,
     /// dyn scenario: the generated target type
     #[serde(default, skip_serializing_if = "Option::is_none")]
     pub shape: Option<crate::scen_dyn::Shape>,
@@ -404,6 +413,7 @@ impl Plan {
             stream: Stream::slice(),
             enumerate: false,
             type_id: 0,
+            isolate: false,
             shape: None,
             builds: vec![],
             pipe: PipePlan::default(),
@@ -429,6 +439,7 @@ impl Plan {
         self.enumerate.hash(&mut h);
         self.type_id.hash(&mut h);
         self.shape.hash(&mut h);
+        self.isolate.hash(&mut h);
         self.builds.hash(&mut h);
         self.pipe.hash(&mut h);
         h.finish()
